@@ -167,7 +167,7 @@ def run(ctx):
     ctx.cov["rule"] = ("(set of 1-3 generator programs with ACL texts): programs enumerated by TLC (<=4 ops) and seeded longer ones, ACLs from a rule menu; "
                        "non-trivial = distinct cases in which at least one line is yielded inside a block and the outcome is decided by an ACL (error, conflict or filtered union)")
     ctx.assumptions += ["programs are well bracketed", "bands as in C06 (competition inside an ACL is not judged)", "empty running config, no implicit, no filter-acl"]
-    r = ctx.mc("mc/MC_GenRun.tla", "mc/MC_GenRun_%s.cfg" % ("quick" if quick else "thorough"), workers=4 if quick else 16, timeout=3000)
+    r = ctx.mc("mc/MC_GenRun.tla", "mc/MC_GenRun_%s.cfg" % ("quick" if quick else "thorough"), workers=4 if quick else 16, timeout=4 * 3600)
     if r.violated:
         ctx.reject("mc", "GenRun model: %s" % r.violated, {"tlc": r.out[-3000:]}, None)
     progs = [json.loads(c[0])["p"] for c in core.parse_tagged(r.out, "PROG")]
